@@ -11,7 +11,7 @@ META = {
     "engine": "small",
     "technique": "TLA+ spec KeyStore model-checked with TLC (the fs design refines the map model); TLC's behaviours replayed step by step on MemStore and the fs Store (spec->impl conformance)",
     "text": "TLC enumerates every sequence of entry / vacant insert|drop / occupied get*|remove|drop / get / try_insert / remove / reopen (open|clone) over 2 ids (plus root-directory removal at the tail) and checks that the fs design (files, open handle, file offset) refines the map model (Refines, DirIsMap, NothingLeftBehind, OccupiedIffInserted, ReadsReturnStored, GoneIsError). Every emitted behaviour is replayed through the public KeyStore/Entry API of both real stores; after every step result class, returned key, directory listing (exactly one file per occupied id + canary) and get() of every id are compared with the model, and at the end after dropping any open handle.",
-    "note": "Bounds: 2 ids; quick: all behaviours of 4 calls + seeded sample of the 5-call behaviours (TLC exhaustive at 5); thorough: all behaviours of <= 6 calls, VIEW-reduced design check at 9 calls x 3 ids, simulation to 10 calls x 3 ids. fs store on tmpfs (/dev/shm) plus a sample on the real disk under work/C45. One handle at a time, one thread (the Entry borrows the store); debug-assertion build (canary enabled).",
+    "note": "Bounds: 2 ids; quick: all behaviours of <= 5 calls; thorough: all behaviours of <= 6 calls, VIEW-reduced design check at 9 calls x 3 ids, simulation to 10 calls x 3 ids. fs store on tmpfs (/dev/shm) plus a sample on the real disk under work/C45. One handle at a time, one thread (the Entry borrows the store); debug-assertion build (canary enabled).",
 }
 
 ACTIONS = ["Entry", "VInsert", "VDrop", "OGet", "ORemove", "ODrop", "Get", "TryInsert", "Remove",
@@ -58,14 +58,14 @@ def run(ctx):
     # ---- design level: exhaustive TLC; the fs design refines the map model
     r5 = ctx.tlc("KeyStore", "MC_KeyStore.cfg", timeout=900)
     ctx.require_actions(r5, ACTIONS)
-    r4 = ctx.tlc("KeyStore", "MC_KeyStore_4.cfg", timeout=900)
-    sets = [("all4", r4.replays, None), ("sample5", r5.replays, 1500 if not ctx.thorough else None)]
+    # behaviours of n calls extend those of n-1 calls: replaying all maximal ones covers the shorter
+    sets = [("all5", r5.replays, None)]
     if ctx.thorough:
         r6 = ctx.tlc("KeyStore", "MC_KeyStore_6.cfg", timeout=1800)
         rd = ctx.tlc("KeyStore", "MC_KeyStore_deep.cfg", timeout=1800)
         ctx.require_actions(rd, ACTIONS)
         rs = ctx.tlc("KeyStore", "MC_KeyStore_sim.cfg", simulate=3000, depth=12, timeout=900)
-        sets += [("all6", r6.replays, None), ("sim10", rs.replays, None)]
+        sets = [("all6", r6.replays, None), ("sim10", rs.replays, None)]
     # the named deviations must violate the invariants (the spec's invariants are not vacuous)
     for cfg, invs in DESIGN_BUGS:
         rb = ctx.tlc("KeyStore", cfg, allow_violation=True, coverage=False, timeout=600)
@@ -100,10 +100,10 @@ def run(ctx):
     counts["disk"] = {"replayed": len(disk)}
 
     # ---- binding self-test: perturbed expectations must be rejected by the engine
-    base = next(b for b in r4.replays
+    base = next(b for b in r5.replays
                 if [s["op"] for s in b["steps"]][:3] == ["tryinsert", "entry", "oget"] and not has_gone(b))
     muts = []
-    for k, field, val in ((2, "r", "none"), (2, "v", 77), (2, "files", []), (0, "map", [0, 0])):
+    for k, field, val in ((2, "r", "none"), (2, "v", 77), (2, "files", []), (0, "map", [0, 0])):  # noqa
         m = json.loads(json.dumps(base))
         m["steps"][k][field] = val
         muts.append(m)
